@@ -90,7 +90,7 @@ impl ServerMsg for PartialReply {
         S: AsRef<str> + Debug,
     {
         let mut reader = NsReader::from_str(input.as_ref());
-        _ = reader.trim_text(true);
+        _ = reader.trim_text(true).expand_empty_elements(true);
         Self::read_xml(&mut reader, &BytesStart::new("dummy"))
     }
 }
